@@ -253,7 +253,14 @@ func main() {
 	if n := len(re.FindAllStringIndex(src, -1)); n < 1 {
 		die("kv_pebble.go: vfs.Default not found")
 	}
-	emit(kvp, re.ReplaceAllString(src, "simPebbleFS(factory.dataDir)"))
+	src = re.ReplaceAllString(src, "simPebbleFS(factory.dataDir)")
+	// buggify seam: the engine may flush (and the node may crash) right after any batch commit
+	re2 := regexp.MustCompile(`(?m)^\terr := b\.b\.Commit\(pebble\.NoSync\)\n`)
+	if n := len(re2.FindAllStringIndex(src, -1)); n != 1 {
+		die("kv_pebble.go: batch commit site found %d times, expected 1", n)
+	}
+	src = re2.ReplaceAllString(src, "\terr := b.b.Commit(pebble.NoSync)\n\tsimAfterCommit(b.p)\n")
+	emit(kvp, src)
 	addShimPackage("kvx", "server/kv")
 	addShimPackage("walx", "server/wal")
 	addShimPackage("serverx", "server")
